@@ -680,7 +680,10 @@ def case_chain(spec):
                 return out
             except Exception as e:
                 # a supported pointwise operation on a valid argument raised: there is no result to compare
-                out.append(rec("fail", contract, tags + ["raises:" + type(e).__name__], "%s: %s" % (type(e).__name__, e)))
+                import traceback
+
+                where = " | ".join("%s:%d %s" % (fr.filename.split("/repo/")[-1], fr.lineno, fr.name) for fr in traceback.extract_tb(e.__traceback__)[-6:])
+                out.append(rec("fail", contract, tags + ["raises:" + type(e).__name__], "%s: %s [%s]" % (type(e).__name__, e, where)))
                 out[-1]["step"] = depth + 1
                 return out
             ok = check_pointwise(F2, O2, contract, tags, rs, npts, out)
